@@ -19,7 +19,7 @@ from rv.model.bits import Expect
 from rv.util import B, CLASSES, call, exc_matches
 
 PROP = 'C10'
-SENTINELS = False
+SENTINELS = False      # installed by run() itself, after the two exhaustive sweeps (see run)
 SHARDS = {'quick': 4, 'thorough': 16}
 RULE = ("int cases: every integer of [-4096,4096] (quick) / [-65536,65536] (thorough) x 4 codes, plus power-of-two "
         "neighbours and random integers out to 2**200, each through every creation route (keyword on the 4 classes, "
@@ -611,8 +611,6 @@ def run(ctx):
     except AssertionError as e:
         ctx.inconclusive_because(f'reference exp-Golomb model failed its self-check: {e!r}')
         return
-    if ctx.shard == 0:
-        directed(ctx)
     rng = ctx.rng
 
     # 1. exhaustive integer window x 4 codes
@@ -642,6 +640,14 @@ def run(ctx):
             if i % 6007 == 0:
                 ctx.sample(c)
     ctx.exhaustive[f'decoder input: every bit string of length <= {N} x 4 codes x pos in {{0,2}}'] = True
+
+    # The class-wide sentinels (owned by C04/C06/C20, only recorded as foreign trips here) make every
+    # per-bit __getitem__ of a property decode a checked boundary call (+50% wall).  They watch the
+    # directed cases, the huge integers and the sequences, not the two exhaustive sweeps above.
+    from rv import sentinels
+    sentinels.install(ctx)
+    if ctx.shard == 0:
+        directed(ctx)
 
     # 3. power-of-two neighbours and random integers out to 2**200
     for i, v in enumerate(boundary_ints(ctx)):
